@@ -363,6 +363,21 @@ class Unit:
                 t = dict(rule=rule, frm_regex=frm, to=to, count=c, item=rec.get('item'))
                 rec['transformations'].append(t)
                 self.transforms.append(t)
+            elif cmd == 'enumerate_for':
+                text, c = inl.rewrite_enumerate_for(text)
+                if c == 0:
+                    raise LostAnchor('enumerate_for: no `for (i, x) in e.enumerate()` found')
+                t = dict(rule='T15', what='for (i, x) in e.enumerate() { B } -> counter variable incremented at the top of the body', count=c, item=rec.get('item'))
+                rec['transformations'].append(t)
+                self.transforms.append(t)
+            elif cmd == 'wrap_chain':
+                a_ = arg.split()
+                text, c = inl.rewrite_method_chain(text, a_[0], a_[1].split(','))
+                if c == 0:
+                    raise LostAnchor('wrap_chain: no .%s found' % '().'.join(a_[1].split(',')))
+                t = dict(rule='T16', what='RECV.%s(..) -> crate::%s(RECV, ..): trusted wrapper whose body is that same call' % ('(..).'.join(a_[1].split(',')), a_[0]), count=c, item=rec.get('item'))
+                rec['transformations'].append(t)
+                self.transforms.append(t)
             elif cmd == 'pub':
                 text, c = re.subn(r'(?m)^([ \t]*)((?:const|static|fn|struct|enum|type|trait|unsafe fn|async fn)\b)', r'\1pub \2', text, count=1)
                 if c != 1:
